@@ -821,7 +821,7 @@ impl<'p, W, R, T> CompilationScope<'p, W, R, T> {
                                         {
                                             return Ok(XExpr::Variant(
                                                 spec.clone(),
-                                                bind,
+                                                spec.complete_bind(bind),
                                                 index,
                                                 Box::new(compiled_arg),
                                             ));
@@ -878,7 +878,7 @@ impl<'p, W, R, T> CompilationScope<'p, W, R, T> {
                                     return if let Some(bind) =
                                         spec.bind(&arg_types[..], &struct_t, binding)
                                     {
-                                        Ok(XExpr::Construct(spec.clone(), bind, args))
+                                        Ok(XExpr::Construct(spec.clone(), spec.complete_bind(bind), args))
                                     } else {
                                         Err(CompilationError::StructFieldTypeMismatch {
                                             struct_name: spec.name,
